@@ -143,6 +143,17 @@ class LoopCtl:
         self.cont = []
 
 
+def flat_set(conjuncts):
+    """set of atomic conjuncts (nested 'and' terms flattened, as and_() does)"""
+    out = set()
+    for c in conjuncts:
+        if isinstance(c, Op) and c.op == "and":
+            out.update(c.args)
+        else:
+            out.add(c)
+    return out
+
+
 class Interp:
     def __init__(self, program, hooks=None):
         self.prog = program
@@ -205,8 +216,11 @@ class Interp:
         out = []
         for c in self.raw_guard_list():
             if isinstance(c, Op) and c.op == "assume":
-                if not state:
-                    out.append(c.args[0])
+                if state:
+                    continue
+                c = c.args[0]
+            if isinstance(c, Op) and c.op == "and":
+                out.extend(c.args)
             else:
                 out.append(c)
         return out
@@ -216,16 +230,25 @@ class Interp:
 
     def rel_guard(self, born):
         """state guard minus the prefix that already held when `born` was taken"""
-        g = self.cur_guard_list(state=True)
-        known = set(born)
-        return and_(*[c for c in g if c not in known])
+        g = flat_set(self.cur_guard_list(state=True))
+        known = flat_set(born)
+        return and_(*[c for c in self._ordered(g) if c not in known])
+
+    def _ordered(self, conj_set):
+        """deterministic order: as in the current flattened guard"""
+        out = []
+        for c in self.cur_guard_list(state=True):
+            for x in (c.args if isinstance(c, Op) and c.op == "and" else (c,)):
+                if x in conj_set and x not in out:
+                    out.append(x)
+        return out
 
     def rel_guard_loop(self, born, L):
         """like rel_guard, additionally dropping the conjuncts that merely say
         'the loop body of L is executing' (loop condition and everything before it)"""
-        g = self.cur_guard_list(state=True)
-        known = set(born) | getattr(L, "own_conds", set())
-        return and_(*[c for c in g if c not in known])
+        g = flat_set(self.cur_guard_list(state=True))
+        known = flat_set(born) | getattr(L, "own_conds", set())
+        return and_(*[c for c in self._ordered(g) if c not in known])
 
     def born_now(self):
         return tuple(self.cur_guard_list(state=True))
@@ -749,6 +772,8 @@ class _ExprMixin:
         if isinstance(base, Ite):
             return ite(base.c, self.getitem(base.a, idx, node), self.getitem(base.b, idx, node))
         if isinstance(base, Const) and isinstance(idx, Const):
+            if base.v is None:
+                return Undef()
             try:
                 return Const(base.v[idx.v])
             except Exception:
@@ -775,8 +800,8 @@ class _ExprMixin:
                     # table lookup with symbolic key: keep table identity
                     return Op("getitem", base, idx)
                 return Op("getitem", base, idx)
-        if isinstance(base, Undef):
-            return base
+        if isinstance(base, Undef) or (isinstance(base, Const) and base.v is None):
+            return Undef()
         return Op("getitem", base, idx)
 
     def ev_ListComp(self, n):
@@ -1586,11 +1611,11 @@ class _StmtMixin:
     def loop_local_guard(self):
         """condition of the current path relative to the start of the loop body"""
         ctl = self.frames[-1].loop_stack[-1]
-        g = self.cur_guard_list(state=True)
+        g = flat_set(self.cur_guard_list(state=True))
         known = getattr(ctl, "base_set", None)
         if known is None:
             return self.local_guard()
-        return and_(*[c for c in g if c not in known])
+        return and_(*[c for c in self._ordered(g) if c not in known])
 
     def st_Match(self, st):
         raise AnalysisError("match statement not modelled by the interpreter (line %s)" % getattr(st, "lineno", "?"))
@@ -1633,7 +1658,7 @@ class _LoopMixin:
             ctl = LoopCtl()
             fr.loop_stack.append(ctl)
             self.event("loop_unrolled", (len(elems),), st)
-            ctl.base_set = set(self.cur_guard_list(state=True))
+            ctl.base_set = flat_set(self.cur_guard_list(state=True))
             for e in elems:
                 ctl.cont = []
                 if not self.feasible():
@@ -1967,7 +1992,7 @@ class _LoopMixin:
         fr.loop_stack.append(ctl)
         self.loop_ctx.append(L)
         pushed = 0
-        pre_set = set(self.cur_guard_list(state=True))
+        pre_set = flat_set(self.cur_guard_list(state=True))
         try:
             if L.kind == "while":
                 c = self.truth(self.ev(st.test))
@@ -1979,9 +2004,9 @@ class _LoopMixin:
                 self.assign(st.target, elem, st)
             if final:
                 L.body_guard = self.cur_guard()
-            L.body_guard_set = set(self.cur_guard_list(state=True))
+            L.body_guard_set = flat_set(self.cur_guard_list(state=True))
             L.own_conds = L.body_guard_set - pre_set
-            L.body_guard_full = set(self.cur_guard_list())
+            L.body_guard_full = flat_set(self.cur_guard_list())
             ctl.base_set = L.body_guard_set
             if self.feasible():
                 self.exec_block(st.body)
@@ -2356,7 +2381,7 @@ def _st_For_gen(self, st):
     if isinstance(it, GenV):
         fr = self.frames[-1]
         ctl = LoopCtl()
-        ctl.base_set = set(self.cur_guard_list(state=True))
+        ctl.base_set = flat_set(self.cur_guard_list(state=True))
         fr.loop_stack.append(ctl)
         self.event("for_generator", (it.finfo.qual,), st)
 
@@ -2388,7 +2413,7 @@ def _orig_st_For_with(self, st, it):
         ctl = LoopCtl()
         fr.loop_stack.append(ctl)
         self.event("loop_unrolled", (len(elems),), st)
-        ctl.base_set = set(self.cur_guard_list(state=True))
+        ctl.base_set = flat_set(self.cur_guard_list(state=True))
         for e in elems:
             ctl.cont = []
             if not self.feasible():
